@@ -24,6 +24,16 @@ Theorem C09_sign1_reencode_canonical :
 Proof. exact sign1_reencode_canonical. Qed.
 Print Assumptions C09_sign1_reencode_canonical.
 
+(* COSE_Signature and COSE_Countersignature *)
+Theorem C09_signature_reencode :
+  forall data s,
+  unmarshal_signature data = Acc s ->
+  exists p u sg,
+    data = 131 :: ser p ++ ser u ++ ser sg /\
+    marshal_signature s = Acc (131 :: ser p ++ ser u ++ renorm_field sg).
+Proof. exact signature_reencode. Qed.
+Print Assumptions C09_signature_reencode.
+
 Theorem C09_headers_marshal_decoded :
   forall p u pm um,
   ensure_iv (mkH (Some (ser p)) (Some pm) (Some (ser u)) (Some um)) = true ->
